@@ -9,3 +9,33 @@ Lemma C27_example :
       [(4, 0); (4, 1); (5, 2); (5, 4)]%nat [0; 0; 0; 0; 5 # 1; 1 # 1]%Q
     = Some [0; 0; 0; 0; 5 # 1; 51 # 10]%Q.
 Proof. split; [apply children_firstb_spec; reflexivity | vm_compute; reflexivity]. Qed.
+
+Lemma C03_example :
+  constrain_list QNum (1 # 10)%Q [true; true; true; true; false] 2
+      [(4, 0); (4, 1); (3, 2); (3, 4)]%nat [0; 0; 0; 1 # 1; 5 # 1]%Q
+    = Some [0; 0; 0; 11 # 10; 1 # 1]%Q.
+Proof. vm_compute. reflexivity. Qed.
+
+(** binary64: adding the default min_branch_length 1e-8 to 3e8 is absorbed, so in doubles
+    the forced pass guarantees [parent >= fl(child + eps)] but NOT [parent > child] *)
+From Coq Require Import PrimFloat.
+Lemma double_absorbs_eps : (PrimFloat.eqb (PrimFloat.add 0x1.1e1a3p+28 0x1.5798ee2308c3ap-27) 0x1.1e1a3p+28 = true)%float.
+Proof. vm_compute. reflexivity. Qed.
+
+Lemma forced_double_equal_times :
+  constrain_list FNum 0x1.5798ee2308c3ap-27%float [true; true; false] 0 [(2, 0); (2, 1)]%nat
+     [0x1.1e1a3p+28; 0x1.1e1a3p+28; 0]%float
+  = Some [0x1.1e1a3p+28; 0x1.1e1a3p+28; 0x1.1e1a3p+28]%float.
+Proof. vm_compute. reflexivity. Qed.
+
+Lemma C01_double_witness :
+  exists es fixed (t : list float) eps,
+    (0 <? eps)%float = true /\
+    exists t', constrain_list FNum eps fixed 0 es t = Some t' /\
+      exists p c, In (p, c) es /\ (nth p t' 0 =? nth c t' 0)%float = true.
+Proof.
+  exists [(2, 0); (2, 1)]%nat, [true; true; false], [0x1.1e1a3p+28; 0x1.1e1a3p+28; 0]%float,
+         0x1.5798ee2308c3ap-27%float.
+  split; [vm_compute; reflexivity|].
+  eexists. split; [exact forced_double_equal_times|].
+  exists 2%nat, 0%nat. split; [left; reflexivity | vm_compute; reflexivity]. Qed.
